@@ -156,7 +156,7 @@ func checkC13(p *load.Program, r *kit.Report) {
 					if vi, ok := kit.Strip(v).(ssa.Instruction); ok {
 						r2 := kit.Reach(f, []kit.Pt{kit.EdgeStart(kit.Edge{From: g.If.Block(), Succ: map[bool]int{true: g.Pass, false: 1 - g.Pass}[want.pass]})}, kit.Opts{StopAt: kit.InstrSet(append(stop, vi)...)})
 						for _, w := range kit.DirectWrites(f) {
-							if w.Field != nil && w.Field.Name() == "nextNodeOffset" && r2.Has(w.Instr) &&
+							if w.Field != nil && w.Field == p.Field(R, "NodeManager", "nextNodeOffset") && r2.Has(w.Instr) &&
 								kit.Reach(f, kit.After(w.Instr), kit.Opts{StopAt: kit.InstrSet(append(stop, vi)...)}).Has(vi) {
 								bad = "the node offset is changed between the readiness test and the selection of the node returned"
 							}
